@@ -408,7 +408,7 @@ Definition opt_min_some (a b : option Z) : option Z :=
 
 Definition add_assign (a b : range) : range :=
   {| rmin := opt_max (rmin a) (rmin b); rmax := opt_min_some (rmax a) (rmax b);
-     rext := rext a || rext b; rsize := rsize a || rsize b |}.
+     rext := rext b (* X.680 50.8: the later constraint decides (fix for C04-serial-marker-inherited) *); rsize := rsize a || rsize b |}.
 
 (* one serial constraint: the element set and the outer extension marker *)
 Record constraint := { cset : eos; cext : bool }.
